@@ -13,3 +13,13 @@ for sid in sorted(m):
 print("| seed | site | verdict | reporting rules | applied on |\n|------|------|---------|-----------------|------------|")
 print("\n".join(rows))
 print("\n%d of %d caught" % (sum(1 for r in rows if "caught" in r), len(rows)))
+
+# --write: replace the block between the markers in DESIGN.md
+import sys
+if "--write" in sys.argv:
+    d = os.path.join(V, "DESIGN.md")
+    txt = open(d).read()
+    a, b = txt.index("<!-- SEED-TABLE-BEGIN -->"), txt.index("<!-- SEED-TABLE-END -->")
+    caught = sum(1 for r in rows if "caught" in r)
+    block = "<!-- SEED-TABLE-BEGIN -->\n**%d of %d caught** (last run of `tools/seed_matrix.py`).\n\n| seed | site | verdict | reporting rules | applied on |\n|------|------|---------|-----------------|------------|\n%s\n" % (caught, len(rows), "\n".join(rows))
+    open(d, "w").write(txt[:a] + block + txt[b:])
